@@ -156,13 +156,24 @@ pub fn decode<E: Elem>(c: &ByteCase) -> Decoded<E> {
     } else {
         let hx = E::from_raw(u32::from_le_bytes([c.p(7), c.p(8), c.p(9), c.p(10)]));
         let hy = if fl & 64 != 0 { hx } else { E::from_raw(u32::from_le_bytes([c.p(11), c.p(12), c.p(13), c.p(14)])) };
-        let lx = (c.p(15) as usize).min(c.ops.len());
+        // split point: anywhere in the records (p15 scales over the whole list)
+        let lx = ((c.p(15) as usize * (c.ops.len() + 1)) >> 8).min(c.ops.len());
         let sx: Vec<E> = c.ops[..lx].iter().map(|o| E::from_raw(u32::from_le_bytes(*o))).collect();
         let sy: Vec<E> = if fl & 32 != 0 { sx.clone() } else { c.ops[lx..].iter().map(|o| E::from_raw(u32::from_le_bytes(*o))).collect() };
         (Val { h: hx, s: sx }, Val { h: hy, s: sy })
     };
-    let rec_x = x.s.len() + (fl as usize >> 1 & 1);
-    let rec_y = y.s.len() + (fl as usize >> 2 & 1);
+    let big = c.p(if indexed { 7 } else { 6 }.min(15)) as usize;
+    let bump = |b: usize| -> usize {
+        match b & 3 {
+            1 => 1usize << 63,
+            2 => usize::MAX / 2 + 7,
+            3 => usize::MAX - 3,
+            _ => 0,
+        }
+    };
+    let (bx, by) = if indexed { (bump(big), bump(big >> 2)) } else { (if fl & 128 != 0 { bump(c.p(2) as usize) } else { 0 }, if fl & 128 != 0 { bump(c.p(3) as usize) } else { 0 }) };
+    let rec_x = (x.s.len() + (fl as usize >> 1 & 1)).wrapping_add(bx);
+    let rec_y = (y.s.len() + (fl as usize >> 2 & 1)).wrapping_add(by);
     Decoded { kind, same_alloc: fl & 1 != 0, rec_x, rec_y, second_x: fl & 8 != 0, second_y: fl & 16 != 0, x, y, indexed }
 }
 
@@ -299,6 +310,7 @@ macro_rules! class_impl {
                         class_impl!(@total $total, o, a, b, tx, ty);
                         class_impl!(@hash $hash, o, a, b, stream(&tx), eq);
                         class_impl!(@maps $total, $hash, o, a, tx, ty, eq_t);
+                        class_impl!(@maxmin $total, o, a, b, tx, ty);
                         if format!("{:#?}", a) != format!("{:#?}", tx) {
                             o.fail("Debug-alternate", "{:#?} differs between handle and value".into());
                         }
@@ -502,6 +514,9 @@ macro_rules! class_impl {
     (@partial_hwl no, $o:expr, $a:expr, $b:expr, $pref:expr, $lic:expr, $eq:expr, $same_rec:expr) => {};
     (@total yes, $o:expr, $a:expr, $b:expr, $rx:expr, $ry:expr) => {
         check_total!($o, $a, $b, $rx.cmp(&$ry), $a.partial_cmp(&$b));
+        if $b.cmp(&$a) != $a.cmp(&$b).reverse() {
+            $o.fail("cmp-antisymmetry", format!("cmp(a,b) is {:?} but cmp(b,a) is {:?}", $a.cmp(&$b), $b.cmp(&$a)));
+        }
     };
     (@total no, $o:expr, $a:expr, $b:expr, $rx:expr, $ry:expr) => {};
     (@total_hwl yes, $o:expr, $a:expr, $b:expr, $rx:expr, $ry:expr, $same_rec:expr) => {
@@ -515,8 +530,33 @@ macro_rules! class_impl {
         if ($a == $b) != (c == Ordering::Equal) {
             $o.fail("cmp-vs-eq", format!("== is {} but cmp is {:?}", $a == $b, c));
         }
+        if $b.cmp(&$a) != c.reverse() || $b.partial_cmp(&$a) != Some(c.reverse()) {
+            $o.fail("cmp-antisymmetry", format!("cmp(a,b) is {:?} but cmp(b,a) is {:?}", c, $b.cmp(&$a)));
+        }
     };
     (@total_hwl no, $o:expr, $a:expr, $b:expr, $rx:expr, $ry:expr, $same_rec:expr) => {};
+    (@maxmin yes, $o:expr, $a:expr, $b:expr, $tx:expr, $ty:expr) => {
+        // Ord::max / min / clamp on handles: the same value as on the plain values, and the documented
+        // tie rule (max returns the second argument, min the first) observable through ptr_eq
+        let (ha, hb) = ($a.clone(), $b.clone());
+        let mx = std::cmp::Ord::max(ha.clone(), hb.clone());
+        let mn = std::cmp::Ord::min(ha.clone(), hb.clone());
+        let vmx = std::cmp::Ord::max($tx.clone(), $ty.clone());
+        let vmn = std::cmp::Ord::min($tx.clone(), $ty.clone());
+        if *mx != vmx || *mn != vmn {
+            $o.fail("max-min", format!("max/min of handles hold {:?}/{:?}, of values {:?}/{:?}", *mx, *mn, vmx, vmn));
+        }
+        if $tx.cmp(&$ty) == Ordering::Equal && !Arc::ptr_eq(&ha, &hb) {
+            if !Arc::ptr_eq(&mx, &hb) || !Arc::ptr_eq(&mn, &ha) {
+                $o.fail("max-min-tie", "on a tie Ord::max must return the second argument and Ord::min the first".to_string());
+            }
+        }
+        let cl = ha.clone().clamp(std::cmp::Ord::min(ha.clone(), hb.clone()), std::cmp::Ord::max(ha.clone(), hb.clone()));
+        if *cl != $tx.clone().clamp(std::cmp::Ord::min($tx.clone(), $ty.clone()), std::cmp::Ord::max($tx.clone(), $ty.clone())) {
+            $o.fail("clamp", "clamp of handles differs from clamp of values".to_string());
+        }
+    };
+    (@maxmin no, $o:expr, $a:expr, $b:expr, $tx:expr, $ty:expr) => {};
     (@hash yes, $o:expr, $a:expr, $b:expr, $ref_a:expr, $eq:expr) => {
         check_hash!($o, $a, $b, $ref_a, $eq);
     };
@@ -598,21 +638,23 @@ impl<E: Elem + Bits, C: Class<E>> Engine for CmpEngine<E, C> {
         16
     }
     fn ops_range(&self) -> (usize, usize) {
-        (0, 80)
+        // random part: slices well beyond 256 elements (a bounded-prefix comparison or a length hashed
+        // through a narrow integer shows only there)
+        (0, 640)
     }
     fn enum_len(&self) -> Option<u64> {
         if !self.exhaustive {
             return None;
         }
         let n = n_values::<E>() as u64;
-        Some(KINDS.len() as u64 * n * n * 6)
+        Some(KINDS.len() as u64 * n * n * 10)
     }
     fn enum_at(&self, i: u64) -> Option<ByteCase> {
         let n = n_values::<E>() as u64;
-        let fv = (i % 6) as usize;
-        let yi = ((i / 6) % n) as usize;
-        let xi = ((i / 6 / n) % n) as usize;
-        let kind = (i / 6 / n / n) as usize;
+        let fv = (i % 10) as usize;
+        let yi = ((i / 10) % n) as usize;
+        let xi = ((i / 10 / n) % n) as usize;
+        let kind = (i / 10 / n / n) as usize;
         let ns = n_slices::<E>();
         // kinds that ignore part of the value get the sub-domain only
         if kind == 1 && (xi / ns != 0 || yi / ns != 0) {
@@ -636,9 +678,18 @@ impl<E: Elem + Bits, C: Class<E>> Engine for CmpEngine<E, C> {
                 flags.push(25);
             }
         }
+        // recorded lengths far apart (2^63, usize::MAX/2+7, usize::MAX-3 added to one or both sides)
+        let mut bigs: Vec<u8> = vec![0; flags.len()];
+        if kind == 3 || kind == 9 || kind == 10 {
+            for b in [1u8, 4, 2 | 12, 3, 1 | 8] {
+                flags.push(0);
+                bigs.push(b);
+            }
+        }
         let fl = *flags.get(fv)?;
+        let big = bigs[fv];
         let (xb, yb) = ((xi as u16).to_le_bytes(), (yi as u16).to_le_bytes());
-        Some(ByteCase { params: vec![kind as u8, fl, xb[0], xb[1], yb[0], yb[1], 0, 0, 0, 0, 0, 0, 0, 0, 0, 0], ops: vec![] })
+        Some(ByteCase { params: vec![kind as u8, fl, xb[0], xb[1], yb[0], yb[1], 0, big, 0, 0, 0, 0, 0, 0, 0, 0], ops: vec![] })
     }
     fn run(&self, c: &ByteCase, trace: bool) -> CaseReport {
         let _ = viol::take();
